@@ -72,13 +72,21 @@ def prefill(archive, cfg):
     """brings the archive into the requested state with arrays that are not the case's arguments"""
     rng = random.Random(cfg.get("pseed", 0))
     dt = np.dtype(cfg["dtype"])
-    n = {"empty": 0, "some": 3, "dense": 9}[cfg.get("state", "some")]
+    centres = None
+    if cfg.get("state") == "full" and cfg["kind"] in ("grid", "cvt"):
+        # every cell occupied, filled in index order (occupied_list == arange(cells)): the state in which "all of the store"
+        # and "the internal arrays" coincide
+        centres = ([[(i + 0.5) / 4, (j + 0.5) / 3] for i in range(4) for j in range(3)] if cfg["kind"] == "grid"
+                   else [[0.1, 0.1], [0.5, 0.1], [0.9, 0.1], [0.1, 0.9], [0.5, 0.9], [0.9, 0.9]])
+    n = {"empty": 0, "some": 3, "dense": 9, "full": len(centres) if centres else 9}[cfg.get("state", "some")]
     done = 0
     with warnings.catch_warnings():
         warnings.simplefilter("ignore")
         for k in range(n):
             b = batch_values(rng, 1, dt, cfg.get("extras"))
             b["objective"] = b["objective"] + k  # rising objectives: improvements happen
+            if centres:
+                b["measures"] = np.array([centres[k]], dtype=dt)
             archive.add(**{f: np.array(v) for f, v in b.items()})
             done += 1
     return done
@@ -131,9 +139,11 @@ def make_store(cfg):
     dt = np.dtype(cfg["dtype"])
     store = ArrayStore({"objective": ((), dt), "measures": ((MEAS,), dt), "solution": ((SOL,), dt)}, cfg.get("cap", 6))
     rng = random.Random(cfg.get("pseed", 0))
-    n = {"empty": 0, "some": 2, "dense": 5}[cfg.get("state", "some")]
+    n = {"empty": 0, "some": 2, "dense": 5, "full": store.capacity}[cfg.get("state", "some")]
     if n:
         idx = np.array([rng.randrange(store.capacity) for _ in range(n)], dtype=np.int32)
+        if cfg.get("state") == "full":
+            idx = np.arange(store.capacity, dtype=np.int32)  # every cell occupied, occupied_list == arange(capacity)
         b = batch_values(rng, n, dt, 0)
         store.add(idx, {k: b[k] for k in ("objective", "measures", "solution")}, {}, [])
     return store
@@ -310,7 +320,7 @@ def ep_archive_retrieve(case, single=False):
     cfg, archive = _filled(case)
     rng = random.Random(case["vseed"])
     dt = np.dtype(cfg["dtype"])
-    meas = grid8(rng, (MEAS,) if single else (cfg.get("n", 3), MEAS), 0, 1).astype(dt)
+    meas = grid8(rng, (MEAS,) if single else (cfg.get("n", 3), MEAS), -0.5, 1.5).astype(dt)
     if not archive.empty and not single:
         meas[0] = archive.data("measures")[0]
     if not archive.empty and single and cfg.get("hit", 1):
@@ -362,7 +372,8 @@ def ep_archive_index_of(case, single=False):
     cfg, archive = _filled(case)
     rng = random.Random(case["vseed"])
     dt = np.dtype(cfg["dtype"])
-    meas = grid8(rng, (MEAS,) if single else (cfg.get("n", 3), MEAS), 0, 1).astype(dt)
+    # also outside the archive's bounds, so that an implementation that clips / normalises its argument in place is seen
+    meas = grid8(rng, (MEAS,) if single else (cfg.get("n", 3), MEAS), -0.5, 1.5).astype(dt)
     args = mkargs(case, [("measures", meas)])
     f = archive.index_of_single if single else archive.index_of
     v = INDEX_KIND[cfg["kind"]] + (1 if cfg["kind"] == "cvt" and not cfg.get("kd", 1) else 0)
